@@ -330,4 +330,10 @@ def run(ctx):
         f.prop, f.rule = 'C19', 'C19.rank'
     for o in r.obligations:
         o.rule = 'C19.rank'
-    return [rule_core(ctx), rule_typed(ctx), r]
+    from .common import rule_memo
+    names = ('MATCH', 'LOOKUP', 'VLOOKUP', 'HLOOKUP', 'INDEX', 'COUNTIF',
+             'SUMIF', 'AVERAGEIF')
+    regs = [ctx.registry.functions[n] for n in names
+            if n in ctx.registry.functions]
+    return [rule_core(ctx), rule_typed(ctx), r,
+            rule_memo(ctx, 'C19', 'C19.memo', regs)]
